@@ -69,7 +69,11 @@ def cases(draw, tier):
             lambda n: (tuple(ns), n) not in used_names))
         used_names.add((tuple(ns), cname))
         methods = []
-        for _ in range(draw(st.integers(1, 5))):
+        if classes and draw(st.integers(0, 2)) == 0:
+            # sibling classes share an interface (Pose2 / Pose3): same methods, own documentation
+            import copy
+            methods = copy.deepcopy(draw(st.sampled_from(classes))['methods'])
+        for _ in range(draw(st.integers(1, 5)) if not methods else 0):
             name = draw(st.sampled_from(NAMES))
             k = draw(st.integers(0, 3))
             args = draw(st.lists(st.sampled_from(ARGS), min_size=k, max_size=k, unique=True))
@@ -111,10 +115,13 @@ def cases(draw, tier):
                 'paramdocs': False, 'returns': None, 'no_brief': False})
         members = draw(st.permutations(members))
         classes.append({'ns': ns, 'name': cname, 'methods': methods, 'fault': fault,
-                        'members': list(members)})
+                        'members': list(members),
+                        'kind': draw(st.sampled_from(['class', 'class', 'struct']))})
     index_fault = draw(st.sampled_from(['none'] * 6 + ['missing', 'truncated']))
     return {'classes': classes, 'index_fault': index_fault,
-            'compile': draw(st.integers(0, 3)) == 0}
+            'compile': draw(st.integers(0, 3)) == 0,
+            # an earlier run of the process saw other documentation at the same path
+            'stale_first': draw(st.integers(0, 3)) == 0}
 
 
 def interface_text(case):
@@ -142,12 +149,12 @@ def write_xml(case, root):
         cpp = '::'.join(c['ns'] + [c['name']])
         refid = 'class%d_%s' % (i, c['name'])
         if c['fault'] != 'not-in-index':
-            comp = ET.SubElement(index, 'compound', refid=refid, kind='class')
+            comp = ET.SubElement(index, 'compound', refid=refid, kind=c.get('kind', 'class'))
             ET.SubElement(comp, 'name').text = cpp
         if c['fault'] == 'file-missing':
             continue
         dox = ET.Element('doxygen', version='1.8.11')
-        cd = ET.SubElement(dox, 'compounddef', id=refid, kind='class')
+        cd = ET.SubElement(dox, 'compounddef', id=refid, kind=c.get('kind', 'class'))
         ET.SubElement(cd, 'compoundname').text = cpp
         sec = ET.SubElement(cd, 'sectiondef', kind='public-func')
         for md in c['members']:
@@ -326,12 +333,28 @@ def check(case):
     d = wraps.scratch_dir('c17')
     try:
         xml_root = os.path.join(d, 'xml')
-        write_xml(case, xml_root)
         text = interface_text(case)
-        plain = wraps.pybind_text(text)
         import io
         import contextlib
+        import copy
         buf = io.StringIO()
+        if case.get('stale_first'):
+            old = copy.deepcopy(case)
+            old['index_fault'] = 'none'
+            for c in old['classes']:
+                c['fault'] = 'none'
+                for md in c['members']:
+                    md.update(brief='STALE TEXT', detail='stale', returns='stale',
+                              marker='DOC#0#', no_brief=False)
+            write_xml(old, xml_root)
+            try:
+                with contextlib.redirect_stdout(buf):
+                    wraps.pybind_text(text, xml_source=xml_root)
+            except Exception:
+                pass
+            shutil.rmtree(xml_root)
+        write_xml(case, xml_root)
+        plain = wraps.pybind_text(text)
         try:
             with contextlib.redirect_stdout(buf):
                 doc = wraps.pybind_text(text, xml_source=xml_root)
@@ -436,9 +459,19 @@ def check(case):
                                               ext.encode('utf-8', 'surrogatepass')[:60])))
         # isolation: delete ', "literal"' occurrences
         rebuilt = doc
+        pos = 0
         for call in bindings:
+            # each binding in turn, from where its .def("name" starts
+            at = rebuilt.find('("%s"' % call.pyname, pos)
+            if at < 0:
+                at = pos
             if call.doc is not None:
-                rebuilt = rebuilt.replace(', ' + call.doc.strip() + ')', ')', 1)
+                pat = ', ' + call.doc.strip() + ')'
+                k = rebuilt.find(pat, at)
+                if k >= 0:
+                    rebuilt = rebuilt[:k] + ')' + rebuilt[k + len(pat):]
+                    at = k
+            pos = at + 1
         if rebuilt != plain:
             la, lb = rebuilt.splitlines(), plain.splitlines()
             dd = next(('line %d: %r vs %r' % (i + 1, x[:100], y[:100])
@@ -454,6 +487,10 @@ def features(case):
     f = set()
     if case.get('compile'):
         f.add('literals-decoded-by-g++')
+    if case.get('stale_first'):
+        f.add('other-docs-at-the-same-path-earlier-in-the-process')
+    if any(c.get('kind') == 'struct' for c in case['classes']):
+        f.add('doxygen-kind-struct')
     for c in case['classes']:
         if c['fault'] != 'none':
             f.add('fault-' + c['fault'])
